@@ -1424,6 +1424,15 @@ class Interp:
                         lo = hi = "?"
                     if isinstance(lo, int) and lo >= 0 and (hi is None or (isinstance(hi, int) and hi < 0)):
                         tags = tags | {("rows-of", tg[1], tg[2] - lo + (hi or 0))}
+        if "orth" in base.tags and "transposed" not in base.tags and kind in ("arr", "unknown"):
+            # the first two rows of a rotation matrix R (images of the in-plane axes): `v2 @ R[:2]` applies the inverse rotation to
+            # the in-plane part of a plane-frame vector only
+            first_ = idx.items[0] if (idx.kind == "indextuple" and idx.items) else idx
+            rest_ = idx.items[1:] if idx.kind == "indextuple" else ()
+            if first_.kind == "slice" and first_.extra is not None and first_.extra.lower is None and first_.extra.step is None \
+                    and isinstance(first_.extra.upper, ast.Constant) and first_.extra.upper.value == 2 \
+                    and all(i_.kind == "slice" and i_.extra is not None and i_.extra.lower is None and i_.extra.upper is None for i_ in rest_):
+                tags = tags | {"orth-rows2"}
         rg_ = self.np.ring_of(base)
         if rg_ is not None and kind in ("arr", "unknown"):
             first_ = idx.items[0] if (idx.kind == "indextuple" and idx.items) else idx
@@ -1558,6 +1567,15 @@ class Interp:
             sl_ = self.np.broadcast_last(l, r)
             if sl_:
                 out.tags = out.tags | {("shape-last", sl_[0], sl_[1])}
+        if isinstance(op, ast.Mult) and out.kind in ("arr", "unknown"):
+            for a_, b_ in ((l, r), (r, l)):
+                if (a_.kind in ("float", "int") or any(t_ in a_.tags for t_ in (("ret", "numpy.dot"), ("ret", "numpy.inner"), ("ret", "numpy.vdot")))) \
+                        and b_.kind in ("arr", "unknown") and (
+                        "along-normal" in b_.tags or (b_.al and all(loc_[1] == "_normal" for loc_ in b_.al))
+                        or any(isinstance(t_, tuple) and t_[:2] == ("getter", "normal") for t_ in b_.tags)):
+                    out.tags = out.tags | {"along-normal"}        # a multiple of the plane's normal
+        if isinstance(op, (ast.Add, ast.Sub)) and self.np.PLANE_OFFSET_DROPPED in out.deps and ("along-normal" in l.tags or "along-normal" in r.tags):
+            out.deps = out.deps - {self.np.PLANE_OFFSET_DROPPED}      # the component along the normal is put back
         if out.kind in ("arr", "unknown"):
             ru_ = self.np.ring_union([l, r])
             if ru_ is not None:
@@ -1660,6 +1678,12 @@ class Interp:
             dim = self._unify_additive(l, r, st, node, "+" if isinstance(op, ast.Add) else "-")
             if l.sym is not None and r.sym is not None:
                 sym = l.sym + r.sym if isinstance(op, ast.Add) else l.sym - r.sym
+                if isinstance(op, ast.Sub) and len(l.sym.terms) >= 2 and not r.is_number_const():
+                    # (s + x) - x: a summand of the minuend is the subtrahend - exact arithmetic cancels it, floating point does
+                    # not when that summand dominates the rest
+                    both = [m_ for m_, c_ in r.sym.terms.items() if m_ in l.sym.terms and (c_ > 0) == (l.sym.terms[m_] > 0) and m_]
+                    if both and len(both) == len(r.sym.terms):
+                        self.emit(st, "self-cancel", node, left=l, right=r, monomials=tuple(both), result=sym)
         elif isinstance(op, (ast.Mult, ast.MatMult)):
             dim = dim_mul(l.dim, r.dim)
             if isinstance(op, ast.MatMult):
